@@ -75,6 +75,34 @@ fn fresh_member(rng: &mut Rng) -> S { let mut s = cps_str(*rng.pick(&MEMB[..]));
 fn fresh_class_named(rng: &mut Rng, nested: bool) -> S {
 	if nested || rng.chance(1, 3) { fresh_simple(rng) } else { let mut p = cps_str(*rng.pick(&["org/example/", "net/minecraft/", "a/"][..])); p.extend(fresh_simple(rng)); p }
 }
+/// the named name for a class: nested classes often take a simple name that ANOTHER nested class (in another outer class,
+/// at any depth) already has — `Alpha$Builder` and `Delta$Builder` are both just `Builder` before the extension
+fn class_named_in(rng: &mut Rng, m: &MMappings, nested: bool) -> S {
+	if nested && rng.chance(1, 3) {
+		let taken: Vec<&S> = m.classes.iter().filter(|c| is_nested(src(c))).filter_map(|c| c.names[NAMED].as_ref()).collect();
+		if !taken.is_empty() { return (*rng.pick(&taken[..])).clone(); }
+	}
+	fresh_class_named(rng, nested)
+}
+/// two different classes each get an inner class with the SAME simple named name, and each of those an inner class of its
+/// own (same or different simple names): equal names in different scopes, at nesting depth two and more
+pub fn twin_chains(rng: &mut Rng, m: &mut MMappings, counts: &mut dyn FnMut(&str)) {
+	let cands: Vec<S> = m.classes.iter().filter(|c| c.names[NAMED].is_some() && ancestors_named(m, src(c))).map(|c| src(c).clone()).collect();
+	if cands.len() < 2 { return; }
+	let a = rng.below(cands.len()); let mut b = rng.below(cands.len() - 1); if b >= a { b += 1; }
+	let shared = fresh_simple(rng);
+	let deep_same = rng.chance(1, 2);
+	let deep = fresh_simple(rng);
+	for p in [cands[a].clone(), cands[b].clone()] {
+		let mut s1 = p.clone(); s1.push('$' as u32); s1.extend(fresh_simple(rng));
+		if m.classes.iter().any(|c| src(c) == &s1) { continue; }
+		m.classes.push(MClass { names: vec![Some(s1.clone()), Some(shared.clone())], doc: None, fields: vec![], methods: vec![] });
+		let mut s2 = s1.clone(); s2.push('$' as u32); s2.extend(fresh_simple(rng));
+		let n2 = if deep_same { deep.clone() } else { fresh_simple(rng) };
+		m.classes.push(MClass { names: vec![Some(s2), Some(n2)], doc: if rng.chance(1, 3) { Some(fresh_doc(rng)) } else { None }, fields: vec![], methods: vec![] });
+	}
+	counts("edit:twin-nested-chains");
+}
 fn fresh_doc(rng: &mut Rng) -> S {
 	const DOCS: [&str; 9] = ["A comment.", "two\nlines", "  leading", "# hash", "tab\there", "back\\slash n", "ünï\u{1F600}", "x", "More comments"];
 	let mut s = cps_str(*rng.pick(&DOCS[..])); if rng.chance(1, 2) { s.extend(cps_str(&format!(" {}", rng.below(50)))); } s
@@ -117,6 +145,7 @@ pub fn gen_root(rng: &mut Rng, sloppy: bool) -> MMappings {
 		}
 		if !changed { break; }
 	}
+	if rng.chance(1, 4) { twin_chains(rng, &mut m, &mut |_| {}); }
 	m
 }
 
@@ -130,7 +159,8 @@ pub fn edit(rng: &mut Rng, m: &mut MMappings, counts: &mut dyn FnMut(&str)) {
 			let s = src(&m.classes[i]).clone();
 			if m.classes[i].names[NAMED].is_none() && !ancestors_named(m, &s) { return; }
 			let was = m.classes[i].names[NAMED].is_some();
-			m.classes[i].names[NAMED] = Some(fresh_class_named(rng, is_nested(&s)));
+			let nn = class_named_in(rng, m, is_nested(&s));
+			m.classes[i].names[NAMED] = Some(nn);
 			counts(if was { "edit:class-rename" } else { "edit:class-name-add" });
 		}
 		2 => { // add a class, possibly nested under a named one
@@ -142,7 +172,8 @@ pub fn edit(rng: &mut Rng, m: &mut MMappings, counts: &mut dyn FnMut(&str)) {
 			let mut s = match &nested_parent { Some(p) => { let mut p = p.clone(); p.push('$' as u32); p } None => cps_str(*rng.pick(&["", "net/minecraft/", "q/"][..])) };
 			s.extend(fresh_simple(rng));
 			if m.classes.iter().any(|c| src(c) == &s) { return; }
-			let mut c = MClass { names: vec![Some(s), Some(fresh_class_named(rng, nested_parent.is_some()))], doc: if rng.chance(1, 3) { Some(fresh_doc(rng)) } else { None }, fields: vec![], methods: vec![] };
+			let nn = class_named_in(rng, m, nested_parent.is_some());
+			let mut c = MClass { names: vec![Some(s), Some(nn)], doc: if rng.chance(1, 3) { Some(fresh_doc(rng)) } else { None }, fields: vec![], methods: vec![] };
 			if rng.chance(1, 2) { c.fields.push(MField { desc: cps_str("I"), names: vec![Some(fresh_member(rng)), Some(fresh_member(rng))], doc: if rng.chance(1, 3) { Some(fresh_doc(rng)) } else { None } }); }
 			if rng.chance(1, 2) {
 				let mut me = MMeth { desc: cps_str("(I)V"), names: vec![Some(fresh_member(rng)), Some(fresh_member(rng))], doc: None, params: vec![] };
@@ -197,6 +228,7 @@ pub fn edit(rng: &mut Rng, m: &mut MMappings, counts: &mut dyn FnMut(&str)) {
 				_ => {}
 			}
 		}
+		15 if ncls >= 2 => twin_chains(rng, m, counts),
 		_ if ncls > 0 => { // parameter
 			let i = rng.below(ncls);
 			let c = &mut m.classes[i];
